@@ -325,7 +325,22 @@ def pred_validator_guard_else_arm(chain):
     return any(s_ in ("val_guard_same", "valerr_guard_same") and d == "else" for s_, d in chain)
 
 
+def pred_closure_from_inner_closure(chain):
+    """a function value (closure, bound method) is created and stored in a captured variable inside a nested closure
+    or goroutine and is then called directly by the enclosing function"""
+    made = False
+    for s_, d in chain:
+        if semgen.STEPS[s_][1] == "C" and d in ("iife", "go"):
+            made = True
+        elif made and s_ == "callclo" and d not in ("iife", "go"):
+            return True
+        elif semgen.STEPS[s_][1] == "C":
+            made = False
+    return False
+
+
 KNOWN_PREDS = {"clo_ret_then_capture": pred_clo_ret_then_capture,
+               "closure_from_inner_closure": pred_closure_from_inner_closure,
                "validator_guard_else_arm": pred_validator_guard_else_arm}
 
 
